@@ -438,7 +438,9 @@ func cleanupFilePos(tfile *token.File, cl engine.Changelog, comments []*ast.Comm
 			continue
 		}
 
-		for i := tfile.Line(dr.Start); i < tfile.Line(dr.End); i++ {
+		// Physical lines, not lines as renumbered by //line directives:
+		// MergeLine works on the former.
+		for i := tfile.PositionFor(dr.Start, false).Line; i < tfile.PositionFor(dr.End, false).Line; i++ {
 			if i > 0 {
 				linesToDelete[i] = struct{}{}
 			}
